@@ -31,6 +31,7 @@ var generators = map[string]genFunc{
 	"deploy":  GenDeploy,
 	"pause":   GenPause,
 	"rollout": GenRollout,
+	"own":     GenOwn,
 }
 
 type runSummary struct {
@@ -132,7 +133,6 @@ func TestRun(t *testing.T) {
 	os.WriteFile(filepath.Join(out, "summary.json"), b, 0o644)
 	os.RemoveAll(scratch)
 }
-
 
 // TestRouting runs the sequential plans (JSON RoutingPlan files in VERIF_PLANS).
 func TestRouting(t *testing.T) {
